@@ -144,7 +144,13 @@ template <class P> static void c01_message(long idx, const Msg& m) {
     set_case(idx, case_json(idx, m, {}, "whole", "c01"));
     g_cpu.arm(2.0);
     Outcome ref;
-    { P p(BIGMAX); bool e; ref = deliver(p, b, {}, e); }
+    // the parser's size limit: far away for two messages in three, otherwise close to the message (exactly its size, one more, a little
+    // more, just under twice its size, the next power of two, the default 4096): a message within the limit has to be accepted however
+    // it is cut - how the receive buffer grows towards the limit must not depend on the segmentation
+    size_t maxsz = BIGMAX;
+    { Rng lr(g_opts.seed * 104729 + (uint64_t)idx * 31); int w = (int)lr.below(18); size_t p2 = 1; while (p2 < n) p2 <<= 1;
+      if (n >= 16 && w < 6) { maxsz = w == 0 ? n : w == 1 ? n + 1 : w == 2 ? n + 37 : w == 3 ? 2 * n - 1 : w == 4 ? p2 : (n <= 4096 ? 4096 : n + 5); count("messages_with_a_limit_close_to_their_size"); } }
+    { P p(maxsz); bool e; ref = deliver(p, b, {}, e); }
     g_cpu.disarm();
     g_evals++;
     count("ref_" + std::string(ref.kind == 0 ? "again" : ref.kind == 1 ? "done" : "error"));
@@ -158,7 +164,7 @@ template <class P> static void c01_message(long idx, const Msg& m) {
         if (cuts.size() > 1) { allcc = "multi"; }
         set_case(idx, case_json(idx, m, cuts, cuts.size() == 1 ? cc : std::string(what), "c01"));
         g_cpu.arm(2.0);
-        P p(BIGMAX);
+        P p(maxsz);
         bool early;
         Outcome got = deliver(p, b, cuts, early);
         g_cpu.disarm();
@@ -174,7 +180,7 @@ template <class P> static void c01_message(long idx, const Msg& m) {
         }
         std::string key = "c01:" + kind + ":" + sym + ":" + where;
         if (reported.insert(key).second)
-            violation(key, "delivered in " + std::to_string(cuts.size() + 1) + " pieces: " + got.brief() + (early ? " before the last piece" : "") + "; whole delivery: " + ref.brief(), g_case);
+            violation(key, std::string(maxsz != BIGMAX ? "(size limit " + std::to_string(maxsz) + ", message " + std::to_string(n) + " bytes) " : "") + "delivered in " + std::to_string(cuts.size() + 1) + " pieces: " + got.brief() + (early ? " before the last piece" : "") + "; whole delivery: " + ref.brief(), g_case);
         return false;
     };
     // every single cut
